@@ -17,7 +17,7 @@ const WPAIRS: [(f64, f64); 7] = [(0.25, 0.25), (0.5, 0.5), (1.0, 1.0), (1.5, 1.5
 
 pub fn run(tier: Tier) -> i32 {
     let rep = Report::new("C12", tier, "model_checking");
-    rep.set_rule("SCOPE: all corpus windows of 10/20/40/60 consecutive labels at the tier's stride (plus a fixed shuffle of each) x GV weights {0.25,.5,1,1.5,2} on both GV streams alike plus the unequal pairs (.5,2) and (2,.5) x voices V0 (+P1..P3 thorough) and V0 with two other legal GV-off contexts (previous phoneme; relative accent position); trajectories via hook 1; oracle: for every coefficient of each GV stream with >= 100 eligible frames (voiced, label outside the voice's GV-off contexts by the independent glob matcher) |var/(w*gv_mean)-1| <= 0.2 and variance non-decreasing in w; silence-only utterances equal the dense ML solution; low-pass (non-GV) trajectory bit-identical for every weight; one MlpgAdjust asked twice (durations of speeds 1 and 0.6) equals fresh objects; distinct = (voice, window, weight); non-trivial = >= 100 eligible frames");
+    rep.set_rule("SCOPE: all corpus windows of 10/20/40/60 consecutive labels at the tier's stride (plus a fixed shuffle of each; plus the whole corpus twice as one utterance of 2912 labels at weights (1,1) and (.5,2)) x GV weights {0.25,.5,1,1.5,2} on both GV streams alike plus the unequal pairs (.5,2) and (2,.5) x voices V0 (+P1..P3 thorough) and V0 with two other legal GV-off contexts (previous phoneme; relative accent position) and V0 with other window sets on both GV streams (static + delta; static + five-tap delta + delta-delta); trajectories via hook 1; oracle: for every coefficient of each GV stream with >= 100 eligible frames (voiced, label outside the voice's GV-off contexts by the independent glob matcher) |var/(w*gv_mean)-1| <= 0.2 and variance non-decreasing in w; silence-only utterances equal the dense ML solution; low-pass (non-GV) trajectory bit-identical for every weight; one MlpgAdjust asked twice (durations of speeds 1 and 0.6) equals fresh objects; distinct = (voice, window, weight); non-trivial = >= 100 eligible frames");
     rep.assume("corpus windows at the stated stride; weights on the 5-point lattice");
     let corpus = labels::corpus();
     // GV-off context variants: the bundled header's own patterns, and two legal variants that look at
@@ -40,6 +40,21 @@ pub fn run(tier: Tier) -> i32 {
             engine_from_bytes(&out).expect("bundled voice with another GV-off context loads")
         })
         .collect();
+    // the bundled voice with other window sets on both GV streams (set through the public fields; the PDFs keep their three
+    // blocks, of which the first ones are used): static + delta only, and a five-tap delta window - fewer windows than the
+    // band of the normal equations is wide
+    let mut gv_off_variants = gv_off_variants;
+    let mut variant_engines = variant_engines;
+    for wins in [vec![vec![1.0], vec![-0.5, 0.0, 0.5]], vec![vec![1.0], vec![-0.2, -0.1, 0.0, 0.1, 0.2], vec![1.0, -2.0, 1.0]]] {
+        use jbonsai::model::voice::window::{Window, Windows};
+        let mut v = (*pk(0)).clone();
+        for si in 0..2 {
+            v.stream_models[si].windows = Windows::new(wins.iter().map(|w| Window::new(w.clone())).collect());
+            v.stream_models[si].metadata.num_windows = wins.len();
+        }
+        gv_off_variants.push(gv_off_variants[0].clone());
+        variant_engines.push(engine_from_voices(vec![std::sync::Arc::new(v)]).expect("bundled voice with other windows"));
+    }
     let gv_off: Vec<String> = gv_off_variants[0].clone();
     let stride = tier.pick(23usize, 2usize);
     let widths = [10usize, 20, 40, 60];
@@ -59,13 +74,17 @@ pub fn run(tier: Tier) -> i32 {
             wins.push(w);
         }
     }
+    // beyond the stated widths: the whole corpus twice as one utterance (2912 labels, 14560 states), V0, two weight pairs
+    let n_wins = wins.len();
+    wins.push(corpus.iter().chain(corpus.iter()).cloned().collect());
     let nvoice = tier.pick(1usize, 4usize);
     let worst = Mutex::new(0.0f64);
     let coef_checks = AtomicU64::new(0);
     let nontriv = AtomicU64::new(0);
-    let mut jobs: Vec<(usize, usize)> = (0..nvoice).flat_map(|k| (0..wins.len()).filter(move |wi| k == 0 || wi % 5 == k).map(move |wi| (k, wi))).collect();
+    let mut jobs: Vec<(usize, usize)> = (0..nvoice).flat_map(|k| (0..n_wins).filter(move |wi| k == 0 || wi % 5 == k).map(move |wi| (k, wi))).collect();
+    jobs.insert(0, (0, n_wins));
     for v in 1..gv_off_variants.len() {
-        for wi in (0..wins.len()).filter(|wi| tier == Tier::Thorough && wi % 3 == v || wi % 7 == v) {
+        for wi in (0..n_wins).filter(|wi| tier == Tier::Thorough && wi % 3 == v || wi % 7 == v) {
             jobs.push((100 + v, wi));
         }
     }
@@ -89,13 +108,16 @@ pub fn run(tier: Tier) -> i32 {
         let mut prev_var: Vec<Vec<f64>> = vec![vec![], vec![]];
         let mut lpf0: Option<Vec<Vec<f64>>> = None;
         for (pi, &(w0, w1)) in WPAIRS.iter().enumerate() {
+            if wi >= n_wins && pi != 2 && pi != 5 {
+                continue;
+            }
             let mut e = base.clone();
             e.condition.set_gv_weight(0, w0);
             e.condition.set_gv_weight(1, w1);
             let _ = w0;
             rep.eval(1);
             rep.distinct(fnv(format!("{}|{}|{}|{}", k, wi, w0, w1).as_bytes()));
-            let rp = json!({"voice": if k == 0 { "V0".to_string() } else if k >= 100 { format!("V0 with GV_OFF_CONTEXT {:?}", gv_off) } else { format!("P{}(V0)", k) }, "labels": u, "gv_weight": [w0, w1]});
+            let rp = json!({"voice": if k == 0 { "V0".to_string() } else if k >= 103 { format!("V0 with the windows of both GV streams replaced by {}", if k == 103 { "static + delta" } else { "static + five-tap delta + delta-delta" }) } else if k >= 100 { format!("V0 with GV_OFF_CONTEXT {:?}", gv_off) } else { format!("P{}(V0)", k) }, "labels": u, "gv_weight": [w0, w1]});
             let t = match trajectories(&e, u) {
                 Ok(t) => t,
                 Err(er) => {
